@@ -734,3 +734,135 @@ theorem feed_segments {m : Map V} (h : WF m) (segs : List Seg) (hok : ∀ s ∈ 
       simp only [Seg.keys, hf]
       have := ih hrest (st := [u]) (Or.inr ⟨u, rfl, hu⟩)
       exact ⟨this.1, _, _, rfl, rfl, this.2⟩
+
+/-! ## override merging at the level of `lookup` -/
+
+theorem related_false_iff {a b : List Nat} : related a b = false ↔ a.isPrefixOf b = false ∧ b.isPrefixOf a = false := by
+  simp [related]
+
+theorem isPrefixOf_trans {a b c : List Nat} (h1 : a.isPrefixOf b = true) (h2 : b.isPrefixOf c = true) :
+    a.isPrefixOf c = true := by
+  rw [List.isPrefixOf_iff_prefix] at *
+  exact h1.trans h2
+
+theorem overlay_cons {c : List Nat} {v : V} {t : Dict V} (hc : c ≠ [])
+    (hun : ∀ e ∈ t, related c e.1 = false) (f : List Nat → Res V) (q : List Nat) :
+    overlay t (specAfter f c v q) q = overlay ((c, v) :: t) (f q) q := by
+  unfold overlay
+  by_cases hq : q = c
+  · subst hq
+    have h1 : t.find? (fun e => e.1 == q) = none := by
+      rw [List.find?_eq_none]
+      intro e he heq
+      have := hun e he
+      simp only [beq_iff_eq] at heq
+      rw [heq, related_self] at this; cases this
+    have h2 : t.any (fun e => q.isPrefixOf e.1) = false := by
+      rw [List.any_eq_false]; intro e he; simp [(related_false_iff.1 (hun e he)).1]
+    have h3 : t.any (fun e => e.1.isPrefixOf q) = false := by
+      rw [List.any_eq_false]; intro e he; simp [(related_false_iff.1 (hun e he)).2]
+    simp [h1, h2, h3, specAfter]
+  · have hne : (c == q) = false := by simpa using Ne.symm hq
+    simp only [List.find?_cons, hne]
+    cases hf : t.find? (fun e => e.1 == q) with
+    | some e => rfl
+    | none =>
+      simp only [List.any_cons]
+      by_cases h2 : t.any (fun e => q.isPrefixOf e.1) = true
+      · simp [h2]
+      · simp only [h2, Bool.or_false]
+        by_cases h3 : t.any (fun e => e.1.isPrefixOf q) = true
+        · have hqc : q.isPrefixOf c = false := by
+            cases hp : q.isPrefixOf c with
+            | false => rfl
+            | true =>
+              exfalso
+              obtain ⟨e, he, hep⟩ := List.any_eq_true.1 h3
+              have := (related_false_iff.1 (hun e he)).2
+              rw [isPrefixOf_trans hep hp] at this; cases this
+          simp [h3, hqc]
+        · simp only [h3, Bool.or_false, specAfter, if_neg hq]
+          by_cases h4 : q.isPrefixOf c = true
+          · simp [h4]
+          · simp only [h4]
+            by_cases h5 : c.isPrefixOf q = true
+            · simp [h5]
+            · simp [h5]
+
+theorem lookup_registerAll_overlay (m : Map V) (l : Dict V) (hne : ∀ e ∈ l, e.1 ≠ [])
+    (hpf : PrefixFree l) (q : List Nat) (hq : q ≠ []) :
+    lookup (registerAll m l) q = overlay l (lookup m q) q := by
+  induction l generalizing m with
+  | nil => simp [registerAll, overlay]
+  | cons e t ih =>
+    have hstep : registerAll m (e :: t) = registerAll (register m e.1 e.2) t := rfl
+    have hpf' := List.pairwise_cons.1 hpf
+    rw [hstep, ih _ (fun e' he' => hne e' (by simp [he'])) hpf'.2,
+      lookup_register m e.1 e.2 q (hne e (by simp)) hq]
+    exact overlay_cons (hne e (by simp)) hpf'.1 (lookup m) q
+
+theorem abs_prefixFree {m : Map V} (h : WF m) : PrefixFree (abs m) := by
+  -- two related chords would give two different answers to the shorter one
+  refine (abs_sorted h).imp_of_mem ?_
+  intro a b ha hb hlt
+  cases hr : related a.1 b.1 with
+  | false => rfl
+  | true =>
+    exfalso
+    have ha' := (mem_abs_iff h a.1 a.2).1 ha
+    have hb' := (mem_abs_iff h b.1 b.2).1 hb
+    have hane := abs_chord_ne_nil ha
+    have hbne := abs_chord_ne_nil hb
+    have hneq : a.1 ≠ b.1 := by
+      intro heq; rw [heq] at hlt; exact chordLt_irrefl _ hlt
+    simp only [related, Bool.or_eq_true, List.isPrefixOf_iff_prefix] at hr
+    rcases hr with hr | hr
+    · have := (lookup_continue_iff h a.1 hane).2 ⟨b.1, b.2, hb, hr, hneq⟩
+      rw [ha'] at this; cases this
+    · have := (lookup_continue_iff h b.1 hbne).2 ⟨a.1, a.2, ha, hr, Ne.symm hneq⟩
+      rw [hb'] at this; cases this
+
+theorem overlay_abs {o : Map V} (h : WF o) (old : Res V) (q : List Nat) (hq : q ≠ []) :
+    overlay (abs o) old q =
+      match lookup o q with
+      | .success v => .success v
+      | .continue_ => .continue_
+      | .failure => if (abs o).any (fun e => e.1.isPrefixOf q) then .failure else old := by
+  unfold overlay
+  cases hf : (abs o).find? (fun e => e.1 == q) with
+  | some e =>
+    have hmem := List.mem_of_find?_eq_some hf
+    have heq : e.1 = q := by simpa using List.find?_some hf
+    have := (mem_abs_iff h e.1 e.2).1 hmem
+    rw [heq] at this
+    simp [this]
+  | none =>
+    rw [List.find?_eq_none] at hf
+    have hns : ∀ v, lookup o q ≠ .success v := by
+      intro v hv
+      exact hf (q, v) ((mem_abs_iff h q v).2 hv) (by simp)
+    by_cases hany : (abs o).any (fun e => q.isPrefixOf e.1) = true
+    · obtain ⟨e, he, hp⟩ := List.any_eq_true.1 hany
+      have hne : q ≠ e.1 := by intro heq; exact hf e he (by simp [heq])
+      have := (lookup_continue_iff h q hq).2 ⟨e.1, e.2, he, List.isPrefixOf_iff_prefix.1 hp, hne⟩
+      simp [hany, this]
+    · have hnc : lookup o q ≠ .continue_ := by
+        intro hc
+        obtain ⟨c, w, hm, hp⟩ := (lookup_continue_iff h q hq).1 hc
+        exact hany (List.any_eq_true.2 ⟨(c, w), hm, List.isPrefixOf_iff_prefix.2 hp.1⟩)
+      cases hl : lookup o q with
+      | success v => exact absurd hl (hns v)
+      | continue_ => exact absurd hl hnc
+      | failure => simp [hany]
+
+theorem lookup_registerOverride {m o : Map V} (ho : WF o) (q : List Nat) (hq : q ≠ []) :
+    lookup (registerOverride m o) q =
+      match lookup o q with
+      | .success v => .success v
+      | .continue_ => .continue_
+      | .failure => if (abs o).any (fun e => e.1.isPrefixOf q) then .failure else lookup m q := by
+  have : registerOverride m o = registerAll m (abs o) := by
+    simp [registerOverride, registerAll, forEach_eq_abs]
+  rw [this, lookup_registerAll_overlay m (abs o) (fun e he => abs_chord_ne_nil (c := e.1) (w := e.2) he)
+    (abs_prefixFree ho) q hq]
+  exact overlay_abs ho _ q hq
